@@ -281,3 +281,9 @@ package codec
 //@ func (*decoder).decodeMapField$2
 //@   free requires *seen != nil
 //@   assert at SetEnum#0 once: !old(has(*seen, keyTokenStr)) && arg0 == keyTokenStr
+
+// "!type" is given at most once in a oneof or an Any (C03): a second one is an error, not an override
+//@ func (*decoder).decodeOneofInner$1
+//@   assert at Token#0 once: *constrainType == nil
+//@ func (*decoder).decodeAny$1
+//@   assert at Token#0 once: *constrainType == nil
